@@ -138,6 +138,18 @@ CLAIMED = {
              "only modelled for small natural exponents (others marked Unsupported and checked by the oracle only).",
         technique="Coq structural-induction proofs + exhaustive depth-2 enumeration correspondence",
         design="7/C16"),
+    "C14": dict(
+        text="Coq theorems: option sets load back unchanged, None-valued ones included (explicit empty attribute), with a "
+             "refutation for the code as found; the stored polygon vertex list is a fixed point of the points setter "
+             "(close + counter-clockwise orientation), so reloading stored points is the identity; equal parameter trees have "
+             "equal flags. Oracle/correspondence on the real code: 40 solver-option combinations incl. every None-able field "
+             "x parameter kinds (float, Parameter, composite, time-dependent composite) saved, loaded, compared (equals, "
+             "options field by field, every recorded step, parameters EVALUATED); devices with/without holes, terminals, probes, "
+             "mesh; meshes full / compressed / recomputed from the triangulation array by array (bit-equal); pickles. "
+             "PARTIAL: device/mesh/data round trips are measured per instance, not proved (h5py is an oracle).",
+        note="Coq kernel; stdlib real axioms (Geom over R); h5py/cloudpickle fidelity measured, not modelled.",
+        technique="Coq proofs for options/polygon normalisation + differential round trips on the real objects",
+        design="7/C14"),
 }
 
 PENDING_REASON = "check not built yet in this session (planned, see DESIGN.md section 7); not claimed until it runs"
